@@ -185,6 +185,7 @@ def boot(quiet: bool = True):
     import fandango.io.packetparser  # noqa
 
     _wrap_print_exception()
+    install_serial_hashes()
     if quiet:
         logging.getLogger("fandango").setLevel(logging.CRITICAL)
         logging.getLogger("fandango").propagate = False
@@ -193,13 +194,82 @@ def boot(quiet: bool = True):
     return fandango
 
 
+# ----------------------------------------------------------------------------
+# address-based hashing seam (S8): objects that inherit object.__hash__ and are put
+# into sets by the product get a per-object serial instead of their address, so the
+# iteration order of such sets is a replayable function of the run (and of a seeded
+# permutation that ReproSim varies on purpose) instead of an accident of the allocator.
+# ----------------------------------------------------------------------------
+_SERIAL = {"next": 0, "mult": 1, "add": 0}
+_SERIAL_CLASSES: list = []
+
+
+def _serial_hash(self):
+    d = self.__dict__
+    h = d.get("_verif_serial")
+    if h is None:
+        h = d["_verif_serial"] = _SERIAL["next"]
+        _SERIAL["next"] += 1
+    return ((h * _SERIAL["mult"]) + _SERIAL["add"]) & 0x3FFFFFFF
+
+
+def install_serial_hashes() -> list:
+    import fandango.io as fio
+    import fandango.language.grammar.nodes.alternative as m1
+    import fandango.language.grammar.nodes.concatenation as m2
+    import fandango.language.grammar.nodes.repetition as m3
+    import fandango.language.grammar.nodes.char_set as m4
+    import fandango.language.grammar.nodes.node as m0
+
+    classes = [m0.Node, fio.FandangoParty]
+    done = []
+    for c in classes:
+        if "__hash__" not in c.__dict__:
+            c.__hash__ = _serial_hash
+            done.append(c.__name__)
+    # subclasses that define __eq__ without __hash__ would be unhashable; leave them alone
+    _SERIAL_CLASSES[:] = done
+    return done
+
+
+def reset_serials(perm_seed: int = 0) -> None:
+    _SERIAL["next"] = 0
+    if perm_seed:
+        _SERIAL["mult"] = (perm_seed * 2 + 1) % 1000003 or 1
+        _SERIAL["add"] = (perm_seed * 7919) & 0xFFFF
+    else:
+        _SERIAL["mult"] = 1
+        _SERIAL["add"] = 0
+
+
+_DEFAULTS: dict = {}
+
+
+def reset_process_globals() -> None:
+    """Every simulated run starts from the same process-global state (S7): what an earlier
+    run in this worker did must not be visible (IsolationSim studies these leaks on purpose
+    and manipulates them itself)."""
+    import fandango.io as fio
+    import fandango.language.grammar.nodes as nodes
+
+    if "MAX_REPETITIONS" not in _DEFAULTS:
+        _DEFAULTS["MAX_REPETITIONS"] = nodes.MAX_REPETITIONS
+    nodes.MAX_REPETITIONS = _DEFAULTS["MAX_REPETITIONS"]
+    fio.FandangoIO._instances.clear()
+    fio.ProcessManager._instances.clear()
+    try:
+        fio.CURRENT_ENV_KEY.contextVar.set(None)
+    except Exception:
+        pass
+
+
 def warm_front_end() -> None:
     """Parse one small spec so that forked workers inherit a warm ANTLR DFA cache."""
     from fandango import Fandango
 
     Fandango(
         "<start> ::= <a> ';' <b>{1,2} | 'x'*\n<a> ::= r'[0-9]+' := str(1)\n<b> ::= <a>? 'y'+ b'z' 0 1\nwhere int(<a>) >= 0\n"
-        "where forall <x> in <b>: str(<x>) != 'q'\n",
+        "where forall <x> in <b>: str(<x>) != 'q'\nwhere int(<a>) % 2 == 0\nfrom simfw.bridge import gen, on_send\n",
         use_stdlib=False,
         logging_level=50,
     )
